@@ -86,6 +86,8 @@ def script_property(run, gen, relevant, variants_quick=("sse2-debug",), variants
                 replay_text = f"# property {pid}: {f.kind} {f.text[:400]}\n# variant: {v}\n# replay: ./hv replay <this file>\n" + small
             else:
                 replay_text = f"# property {pid}: {f.kind} {f.text[:800]}\n# variant: {v}\n"
+                if getattr(f, "replay_hint", None):
+                    replay_text += f"# replay: {f.replay_hint}\n"
             kf = next((k for k in known if k["re"].search(f.text)), None)
             if kf:
                 run.say(f"KNOWN-FINDING: property={pid} {kf['what']}")
@@ -96,10 +98,11 @@ def script_property(run, gen, relevant, variants_quick=("sse2-debug",), variants
             n += 1
             if n >= 3:
                 break
+        return n
 
-    if prop_f:
-        report(prop_f)
-    elif (not cs["ok"]) or tie_f or build_problem or not okd:
+    is_known = lambda f: any(k["re"].search(f.text) for k in known)
+    reported = report(prop_f) if prop_f else 0
+    if not reported and ((not cs["ok"]) or tie_f or build_problem or not okd):
         # the proof or the tie is broken: search for a concrete failing input
         found = []
         if okd and exes:
@@ -112,7 +115,7 @@ def script_property(run, gen, relevant, variants_quick=("sse2-debug",), variants
                     blocks_by_variant[v] = blocks
                     for k, val in s.items():
                         stats[k] = stats.get(k, 0) + val
-                    found = [f for f in fs if relevant(f)]
+                    found = [f for f in fs if relevant(f) and not is_known(f)]
                     if found:
                         break
                 if found:
@@ -771,14 +774,18 @@ def check_c15(run):
     ok, exe = H.build_harness("sse2-debug")
     if ok:
         rc, out = H.sh([exe, "zst"], timeout=60)
-        for l in out.split("\n"):
-            if l.startswith("ZST") and "panicked" in l:
-                extra.append(H.Finding("A-FAIL", l.strip(), None, None))
+        lines = [l for l in out.split("\n") if l.startswith("ZST ")]
+        for l in lines[:3]:
+            fz = H.Finding("A-FAIL", l.strip(), None, None)
+            fz.replay_hint = "cd /verif/harness && RUSTFLAGS='--cfg hashbrown_verif' cargo run --offline --target-dir target-sse2-debug -- zst   (prints every failing request tuple)"
+            extra.append(fz)
+        if rc != 0 or "ZSTSTAT" not in out:
+            extra.append(H.Finding("CRASH", "ZST probe (hbx zst) did not complete: " + out[-300:].replace("\n", " "), None, None))
     run.extra_findings = extra
     return script_property(
         run, gen_many_scripts,
         relevant=lambda f: f.kind == "CRASH" or (f.kind in ("A-FAIL", "H-FAIL", "B-FAIL") and (op_in(f, ("getmanymut", "tgetmanymut")) or "two mutable references" in f.text or f.text.startswith("ZST"))),
-        rule="HashMap histories with get_many_key_value_mut / get_many_mut on N = 0..4 keys (present, absent, repeated, colliding in position and tag bits under the 8 hash-plan classes) and HashTable histories with get_many_mut whose closures are key equalities or value-class predicates matching several entries; the harness compares the addresses of the returned &mut (two equal addresses = finding) and writes through them; results (request order, Some/None, which entry), the written values and the duplicate panic are compared with the extracted model (HashMap::get_many_mut = RawTable::get_many_mut with key closures = Table.table_step TGetManyMut) and judged by the reference multiset; plus a dedicated probe of a table of zero-sized elements",
+        rule="HashMap histories with get_many_key_value_mut / get_many_mut on N = 0..4 keys (present, absent, repeated, colliding in position and tag bits under the 8 hash-plan classes) and HashTable histories with get_many_mut whose closures are key equalities or value-class predicates matching several entries; the harness compares the addresses of the returned &mut (two equal addresses = finding) and writes through them; results (request order, Some/None, which entry), the written values and the duplicate panic are compared with the extracted model (HashMap::get_many_mut = RawTable::get_many_mut with key closures = Table.table_step TGetManyMut) and judged by the reference multiset; plus a dedicated probe of tables of 1..20 zero-sized elements with every tuple of up to 3 requests over present / absent / repeated hashes (799 calls: must panic exactly when two requests name the same present entry)",
         nontrivial_keys=("get_many_mut_2", "get_many_mut_3", "get_many_mut_4", "get_many_mut_2plus"))
 
 PROPS = {
